@@ -150,6 +150,8 @@ class Program:
 
     def _scan_sources(self):
         roots = [d for d in glob.glob(os.path.join(self.repo, '*', 'src')) if os.path.isdir(d)]
+        # the program's own crate first: same-named enums/structs of other crates must not shadow it
+        roots.sort(key=lambda d: (os.path.basename(os.path.dirname(d)) != self.crate, d))
         for root in roots:
             for p in glob.glob(os.path.join(root, '**', '*.rs'), recursive=True):
                 try:
